@@ -113,8 +113,15 @@ func checkProgram(p *pool, c Case, cfgs []string) ([]finding, progResult) {
 		fs = append(fs, finding{Oracle: oracle, Case: cc, Expected: expected, Got: got, Note: note})
 	}
 
+	// sequence family: transparency is demanded only when no SINGLE loop
+	// reaches the tail-iteration limit (with elimination off the limit is
+	// never consulted, so a loop that exceeds it alone differs by design)
+	singleExceeds := c.Family == "sequence" && !singleLoopsFit(p, c)
+
 	// (1) transparency
-	if pr.fits {
+	if singleExceeds {
+		// precondition not met: nothing is demanded
+	} else if pr.fits {
 		for _, cfg := range []string{cfgOn, cfgPlain, cfgProfiler} {
 			if has[cfg] && !same(res[cfg].Out, off.Out) {
 				add("transparency", cfgOff+": "+off.Out.String(), cfg+": "+res[cfg].Out.String(),
@@ -197,6 +204,9 @@ func checkProgram(p *pool, c Case, cfgs []string) ([]finding, progResult) {
 	}
 
 	switch {
+	case singleExceeds:
+		pr.outcomeKind += "single-loop-exceeds-tail-iteration-limit"
+		pr.fits = false // not counted as non-trivial
 	case !pr.fits:
 		pr.outcomeKind += "off-exceeds-limits"
 	case on.Out.IsErr:
@@ -645,7 +655,7 @@ func run(r *core.Run) {
 	r.Assume("OP-* positions put the operand in the operator position of a tail call (compound head, zero or one argument, or a let-/labels-bound function called in the head); programs with such a token return functions from the loop (c02-fn) and the top level extracts the payload; self and 2-cycle topologies")
 	r.Assume("NT-* positions (including `and`) are not terminal and XP-* positions put the call in a macro's expansion: only transparency is demanded for them")
 	r.Assume("multiform: the side call (a recursive call in the tail of a NON-last form of a multi-form body) is made with n=-100, so its activation goes straight to the base case, prints there and logs itself in g-log; the program's value is (list result g-log)")
-	r.Assume("sequence: K separate loops of n turns run on ONE runtime with Stack.MaxTailIterations >= n, so no single loop reaches the limit; with elimination off the limit is never consulted, hence any limit error with elimination on is a transparency violation")
+	r.Assume("sequence: K separate loops of n turns run on ONE runtime with Stack.MaxTailIterations >= n, and no single loop reaches the limit (measured: every loop is also run alone in a fresh runtime with elimination on and the same limit; a case where a lone loop already fails is outside the precondition, e.g. funcall>funcall 2-cycles where the funcall frame is itself a loop frame and counts 3 turns for n=2); with elimination off the limit is never consulted, hence any limit error with elimination on is a transparency violation")
 	r.Assume("one runtime per worker and configuration is reused for up to 256 programs (they only redefine globals); it is dropped when a run leaves frames behind, is cancelled or panics; every disagreement is re-confirmed 5x in fresh runtimes")
 	r.Assume("violations are reported minimal-shape-first: a shape that contains an already reported shape (same relation) as a subsequence is counted under subsumed_violations, not reported")
 
